@@ -6,7 +6,9 @@ Obligation per (form, option set), proved by Coq for all field values:
 where the left side lives in the reference frame and the right side in the physical frame.  The two
 frames are connected by hypotheses that are themselves TRACED from the real per-stage code (and are the
 conclusions of the per-stage properties):
-  * pullback facts: physical value of every form argument = den(apply_function_pullbacks(argument))   [C08]
+  * pullback facts: physical value of every form argument = its declared push-forward, written down
+    independently here for identity / covariant / contravariant Piola (spec_pullback), traced from
+    apply_function_pullbacks for other elements                                                          [C08]
   * lowering facts: every geometric quantity = den(apply_geometry_lowering(quantity))                 [C07]
   * the chain rule through the affine cell map: Dx_j a = sum_k K[k,j] * DX_k a                          [C03]
 So what Coq checks here is the COMPOSITION performed by compute_form_data: stage order, scaling factor,
@@ -58,6 +60,10 @@ def zoo(cell, g):
         ("cond", ufl.conditional(ufl.gt(f, 0), f, -f) * v * dx),
         ("sinf", ufl.sin(f) * v * dx),
         ("bmass", f * v * ds),
+        # explicit Jacobian products: J*K is the identity only when gdim == tdim (tangential projector otherwise)
+        ("jk", ufl.inner(ufl.dot(C.Jacobian(m) * C.JacobianInverse(m), w), vv) * dx),
+        ("kj", ufl.inner(ufl.dot(C.JacobianInverse(m) * C.Jacobian(m), ufl.as_vector([w[k_] for k_ in range(td)])),
+                         ufl.as_vector([vv[k_] for k_ in range(td)])) * dx),
     ]
     if td == g:
         out.append(("volw", C.CellVolume(m) * f * v * dx))
@@ -70,7 +76,35 @@ def zoo(cell, g):
         sned = ufl.FunctionSpace(m, ned)
         out.append(("rtmass", ufl.inner(ufl.Coefficient(srt), ufl.TestFunction(srt)) * dx))
         out.append(("nedmass", ufl.inner(ufl.Coefficient(sned), ufl.TestFunction(sned)) * dx))
+        # "blocked" Piola elements: tensor-valued, the LAST axis is the mapped one
+        bcov = FiniteElement("blocked N1curl", m.ufl_cell(), 1, (td, td), covariant_piola, HCurl)
+        bcon = FiniteElement("blocked RT", m.ufl_cell(), 1, (td, td), contravariant_piola, HDiv)
+        At = uflgen.coef((td, g), cell, g)
+        out.append(("blkcov", ufl.inner(ufl.Coefficient(ufl.FunctionSpace(m, bcov)), At) * dx))
+        out.append(("blkcon", ufl.inner(ufl.Coefficient(ufl.FunctionSpace(m, bcon)), At) * dx))
     return m, out
+
+
+def spec_pullback(t):
+    """The declared push-forward of a form argument, written down independently of ufl/pullback.py for the
+    leaf pullbacks identity / covariant Piola / contravariant Piola (leading axes pass through, the last
+    axis is mapped); None for every other element (then the traced apply_function_pullbacks is used)."""
+    from ufl.pullback import ContravariantPiola, CovariantPiola, IdentityPullback
+    el = t.ufl_element()
+    pb = el.pullback
+    if el.sub_elements or type(pb) not in (IdentityPullback, CovariantPiola, ContravariantPiola):
+        return None
+    r = C.ReferenceValue(t)
+    if isinstance(pb, IdentityPullback):
+        return r
+    m = t.ufl_domain()
+    lead = ufl.indices(len(r.ufl_shape) - 1)
+    i, j = ufl.indices(2)
+    if isinstance(pb, CovariantPiola):
+        body = C.JacobianInverse(m)[j, i] * r[lead + (j,)]
+    else:
+        body = (1.0 / C.JacobianDeterminant(m)) * C.Jacobian(m)[i, j] * r[lead + (j,)]
+    return ufl.as_tensor(body, lead + (i,))
 
 
 def terminals(e):
@@ -116,7 +150,9 @@ def build_case(name, m, form, opts, out=None, pres=None):
         done.add(t)
         repl = None
         if pull and isinstance(t, (C.Coefficient, C.Argument)):
-            repl = apply_function_pullbacks(t)
+            repl = spec_pullback(t)
+            if repl is None:
+                repl = apply_function_pullbacks(t)
         elif geom and isinstance(t, C.GeometricQuantity) and not isinstance(t, (C.SpatialCoordinate, C.QuadratureWeight)):
             repl = apply_geometry_lowering(t)
             if repl == t:
@@ -135,7 +171,12 @@ def build_case(name, m, form, opts, out=None, pres=None):
     detJ = C.JacobianDeterminant(m)
     named["DJ"] = apply_geometry_lowering(detJ) if geom else detJ
     hyps.append("DEN s rho {DJ} [] <> z0")
-    nrew = len(hyps) - 1
+    # ... and so is the Gram determinant of the Jacobian (what the pseudo-inverse divides by on manifolds)
+    jac = C.Jacobian(m)
+    named["JAC"] = apply_geometry_lowering(jac) if geom else jac
+    gd_, td_ = jac.ufl_shape
+    hyps.append(f"DET {td_} (GRAM {gd_} (MAT (DEN s rho {{JAC}}))) <> z0")
+    nrew = len(hyps) - 2
     rew = ", ".join(f"?H{k}" for k in range(nrew))
     tac = ("norm_goal; repeat rewrite (Hchain s); "
            + (f"repeat (progress (rewrite {rew})); " if nrew else "")
@@ -233,7 +274,9 @@ def option_sets(tier):
 
 def run_end_to_end(run):
     kinv = ufl2coq.KIND_OF_GEOMETRY["JacobianInverse"]
-    cells = [("triangle", 2), ("interval", 1)] + ([("tetrahedron", 3), ("triangle", 3)] if run.tier == "thorough" else [])
+    # ("interval", 2): an immersed manifold (gdim > tdim) is part of the quick tier as well
+    cells = [("triangle", 2), ("interval", 1), ("interval", 2)] + \
+        ([("tetrahedron", 3), ("triangle", 3)] if run.tier == "thorough" else [])
     skipped = []
     for cell, g in cells:
         m, forms = zoo(cell, g)
